@@ -153,14 +153,17 @@ NOT_YET = "check not built yet in this round (planned: see DESIGN.md §5)"
 KERNEL_LINKS = {
     "C01": "AbstractEnvLike.step and .reset (env/base_env.py) = Env.gym_step / gym_reset for every environment record",
     "C03": "RolloutBuffer.compute_returns_and_advantages (buffer/rollout.py) = the GAE recursion for every rollout",
-    "C04": "AbstractActorCriticOnPolicyAlgorithm.step (algorithm/on_policy.py) = OnPolicy.op_step for every environment / policy record, incl. what the step callback is handed",
-    "C05": "AbstractOffPolicyAlgorithm.step (algorithm/off_policy.py) = OffPolicy.off_step for every environment / policy record and buffer",
+    "C04": "AbstractActorCriticOnPolicyAlgorithm.step (algorithm/on_policy.py) = OnPolicy.op_step for every environment / policy record, incl. what the step callback is handed; collect_rollout with step and post_collect inlined = OnPolicy.collect (scan over split keys, rows in order, bootstrap value from the final state)",
+    "C05": "AbstractOffPolicyAlgorithm.step (algorithm/off_policy.py) = OffPolicy.off_step for every environment / policy record and buffer; collect_learning_starts and collect_rollout with step inlined = OffPolicy.off_scan over learning_starts / num_steps keys",
     "C06": "ReplayBuffer.add and .current_size (buffer/replay.py) = Replay.soa_add / current_size for every buffer of positive capacity",
     "C07": "DQN.dqn_loss (algorithm/dqn.py) and compute_target inside SAC.sac_train (algorithm/sac.py) = Losses.dqn_loss / td_target with sac_vnext, incl. which network sees which inputs",
     "C08": "PPO.ppo_loss (algorithm/ppo.py) = clipped surrogate (Losses.surrogate) / value / entropy / approx-KL terms and their weighted sum",
-    "C10": "num_iterations (on_policy.py, off_policy.py), DQN.per_iteration (dqn.py), _soft_update_targets (sac.py) = Schedule.num_iterations / the copy rule of dqn_iter / polyak",
-    "C13": "every method of TimeLimit (wrapper/misc.py) and the action-wrapper methods of AbstractPureTransformActionWrapper (wrapper/transform_action.py, with base-class fallback) = Env.wrap1 layers",
+    "C10": "num_iterations (on_policy.py, off_policy.py), DQN.per_iteration (dqn.py), _soft_update_targets (sac.py) = Schedule.num_iterations / the copy rule of dqn_iter / polyak; SAC.sac_train executed symbolically = Schedule.gated for actor and temperature, critics every iteration; AbstractAlgorithm.learn = reset, start observer, exactly floor(total/(N*T)) iterations over split(learn_key), end observer",
+    "C11": "AbstractOnPolicyAlgorithm.iteration (with AbstractAlgorithmState.next / with_callback_states inlined) = Observers.iteration; the training part does not depend on the observer or its state",
+    "C12": "AbstractOnPolicyAlgorithm.iteration for N > 1 environments: environment i = a single-environment collection from its own state and key split(rollout_key, N)[i]; AbstractOffPolicyAlgorithm.reset for N > 1 = OffPolicy.off_reset (per-environment buffers of capacity buffer_size // N, keys, warm-up)",
+    "C13": "every method of TimeLimit (wrapper/misc.py), of AbstractPureObservationWrapper and AbstractPureTransformRewardWrapper, the action-wrapper methods of AbstractPureTransformActionWrapper (with base-class fallback) = Env.wrap1 layers; rescale_box (wrapper/utils.py) on bounded components = rs_forward / rs_backward",
     "C19": "LoggingCallbackStepState.next (callback/logging/callback.py) = Logging.l_next field by field",
+    "C20": "initial_gait_phase, advance_gait_phase, desired_foot_height (env/unitree/g1/gait.py, per-foot view) = Gait.initial_phase / advance1 / foot_height at half period PI",
 }
 
 
